@@ -105,6 +105,20 @@ PROPS = {
              "uget, titer, titer().rev(), slice(a,b) for all a<=b<=len, try_as_slice when offered. distinct = (function, cell, path, "
              "len, window, min_periods) with a non-null output / (accessor suite, backend, len)",
     ),
+    "C08": dict(
+        bin="c08",
+        quick=NATIVE_Q, thorough=NATIVE_T,
+        floors={"reencode_ok.input=Option<f64>": 1000, "reencode_ok.output=Option<i32>": 500, "reencode_ok.output=f32": 500,
+                "map_reencode_ok": 1000, "insertion_ok": 1000, "insertion_ok.vquantile": 50, "insertion_ok.vcorr_pearson": 50,
+                "insertion_ok.vargmax": 50, "insertion_ok.vkurt": 50},
+        technique="runtime monitoring: relational (metamorphic) monitor over pairs of executions of the real code",
+        rule="(i) every null-aware rolling entry point (30) on the same logical series encoded as NaN-floats, Option, and through the "
+             "opt() view, with outputs requested as f64 / Option<f64> / f32 / Option<i32>: results must decode to the same values bit for "
+             "bit (f32 / i32 by the language cast of the f64 result); 38 map / aggregation entry points under both encodings incl. "
+             "null-valued fill / bounds / score arguments; (ii) null insertion (leading, trailing, interleaved, random, block; for "
+             "two-series functions a null on one side only) must leave 19 aggregations / order statistics exactly unchanged, arg-extrema "
+             "after mapping indices. distinct = (function, relation, len, window / parameters)",
+    ),
 }
 
 for _k in list(PROPS):
